@@ -27,6 +27,68 @@ theorem lastHead_range : ∀ (K : Kids) (prev : Option Nat) (n h : Nat),
       · simp at hh
       · simp at hh; omega
 
+theorem segRes_eq_lastRes_of_no_head : ∀ (rest : Kids) (ch : Bool) (i : Info) (ks : Kids) (res : Option Nat)
+    (n n' : Nat), lastHead (some n) n' rest = none →
+    segRes (.cons ch i ks res rest) = lastRes (.cons ch i ks res rest) := by
+  intro rest
+  induction rest with
+  | nil => intro ch i ks res n n' _; simp [segRes, lastRes, Kids.startsChained]
+  | cons ch2 i2 ks2 res2 rest2 _ ih2 =>
+    intro ch i ks res n n' h
+    simp only [lastHead, Option.isSome_some, Bool.and_true] at h
+    cases hr : lastHead (some n') (n' + 1 + ks2.size) rest2 with
+    | some x => simp [hr] at h
+    | none =>
+      rw [hr] at h
+      simp only [Option.none_or] at h
+      have hch2 : ch2 = true := by
+        cases ch2
+        · simp at h
+        · rfl
+      subst hch2
+      rw [show lastRes (.cons ch i ks res (.cons true i2 ks2 res2 rest2)) = lastRes (.cons true i2 ks2 res2 rest2) from rfl]
+      rw [← ih2 true i2 ks2 res2 n' _ hr]
+      simp [segRes, Kids.startsChained]
+
+/-- the CUR_ERROR of the first call of `K` is the outcome of the chain it starts -/
+theorem frameAt_cur_first (p : Nat) (prev : Option Nat) (n : Nat) (K : Kids) :
+    (frameAt p prev n K n).bind (·.curError) = segRes K := by
+  cases K with
+  | nil => rfl
+  | cons ch i ks res rest =>
+    simp only [frameAt, if_true, segRes]
+    split <;> rfl
+
+/-- the CUR_ERROR of a call's LAST_CHILD_SCOPE is the outcome of the call's last sub-evaluation -/
+theorem frameAt_cur_lastHead : ∀ (K : Kids) (p : Nat) (prev : Option Nat) (n h : Nat),
+    lastHead prev n K = some h → (frameAt p prev n K h).bind (·.curError) = lastRes K := by
+  intro K
+  induction K with
+  | nil => intro p prev n h hh; simp [lastHead] at hh
+  | cons ch i ks res rest _ ihrest =>
+    intro p prev n h hh
+    simp only [lastHead] at hh
+    cases hr : lastHead (some n) (n + 1 + ks.size) rest with
+    | some h' =>
+      rw [hr] at hh
+      simp at hh
+      subst hh
+      have hrange := lastHead_range rest _ _ _ hr
+      simp only [frameAt, if_neg (by omega : ¬ h' = n), if_neg (by omega : ¬ h' < n + 1 + ks.size)]
+      rw [ihrest _ _ _ _ hr]
+      cases rest with
+      | nil => simp [lastHead] at hr
+      | cons _ _ _ _ _ => rfl
+    | none =>
+      rw [hr] at hh
+      simp only [Option.none_or] at hh
+      split at hh
+      · simp at hh
+      · simp at hh
+        subst hh
+        rw [frameAt_cur_first]
+        exact segRes_eq_lastRes_of_no_head rest ch i ks res n _ hr
+
 theorem unpackLoop_rowsAt (fs : Array Frame) : ∀ (K : Kids) (p : Nat) (prev : Option Nat) (n : Nat),
     (∀ j, n ≤ j → j < n + K.size → fs[j]? = frameAt p prev n K j) →
     ∀ j, n ≤ j → j < n + K.size → ∀ fuel, n + K.size ≤ j + fuel → ∀ acc,
@@ -65,8 +127,15 @@ theorem unpackLoop_rowsAt (fs : Array Frame) : ∀ (K : Kids) (p : Nat) (prev : 
             else if (segRes rest).isSome = true then [j + 1 + ks.size] else []) = ([] : List Nat) := by
           cases (segRes rest).isSome <;> simp
         simp only [hbr]
-        rw [ihrest p (some j) (j + 1 + ks.size) hfs_rest (j + 1 + ks.size) (by omega) (by omega) fuel (by omega)]
-        simp
+        have hchild : (fs[j + 1 + ks.size]?.bind (·.curError)) = segRes rest := by
+          rw [hfs_rest _ (by omega) (by omega), frameAt_cur_first]
+        simp only [List.contains_nil, Bool.false_eq_true, if_false, hchild]
+        cases hsr : (segRes rest).isNone with
+        | true => simp
+        | false =>
+          simp only [Bool.false_eq_true, if_false]
+          rw [ihrest p (some j) (j + 1 + ks.size) hfs_rest (j + 1 + ks.size) (by omega) (by omega) fuel (by omega)]
+          simp
       | false =>
         simp only [Bool.false_eq_true, if_false]
         cases hlh : lastHead none (j + 1) ks with
@@ -78,9 +147,15 @@ theorem unpackLoop_rowsAt (fs : Array Frame) : ∀ (K : Kids) (p : Nat) (prev : 
           cases hc : br.contains h with
           | true => simp
           | false =>
-            simp only [Bool.false_eq_true, if_false]
-            rw [ihks j none (j + 1) hfs_ks h hr.1 hr.2 fuel (by omega)]
-            simp
+            have hchild : (fs[h]?.bind (·.curError)) = lastRes ks := by
+              rw [hfs_ks _ hr.1 hr.2, frameAt_cur_lastHead ks j none (j + 1) h hlh]
+            simp only [Bool.false_eq_true, if_false, hchild]
+            cases hlr : (lastRes ks).isNone with
+            | true => simp
+            | false =>
+              simp only [Bool.false_eq_true, if_false]
+              rw [ihks j none (j + 1) hfs_ks h hr.1 hr.2 fuel (by omega)]
+              simp
     · by_cases hjk : j < n + 1 + ks.size
       · simp only [rowsAt, if_neg hjn, if_pos hjk]
         exact ihks n none (n + 1) hfs_ks j (by omega) hjk fuel (by omega) acc
